@@ -669,7 +669,7 @@ pub fn install_panic_hook() {
                 format!("{}:{}", f, l.line())
             })
             .unwrap_or_default();
-        if CATCH_DEPTH.with(|d| d.get()) == 0 {
+        if CATCH_DEPTH.with(|d| d.get()) == 0 || std::env::var_os("VMSIM_DEBUG_PANIC").is_some() {
             eprintln!("vmsim: uncaught panic: {} at {}", msg, loc);
         }
         LAST_PANIC.with(|m| *m.borrow_mut() = format!("{} at {}", msg, loc));
